@@ -184,3 +184,7 @@ mod tests {
         assert_eq!(itf8_size_of(-1), 5);
     }
 }
+
+#[cfg(kani)]
+#[path = "/verif/harness/cram/writer_block.rs"]
+mod verif_kani;
